@@ -390,28 +390,28 @@ pub fn run_case(c: &Case, path: &std::path::Path, st: &mut GridStats, shard: &mu
                     let r = b.put(keys[i].as_slice(), vals[i].as_slice()).is_ok();
                     let m = mt.put(&keys[i], &vals[i]).is_ok();
                     if r != m {
-                        return Err("modification disagrees with the model (C01/C07 territory)".into());
+                        return Err(format!("{}modification|a put / delete inside the write transaction returned a different outcome than the model", crate::report::WORKLOAD_FAILED));
                     }
                 }
                 Op::Delete { .. } => {
                     let r = b.delete(keys[i].as_slice());
                     let m = mt.delete(&keys[i]);
                     if r.is_ok() != m.is_ok() {
-                        return Err("modification disagrees with the model (C01/C07 territory)".into());
+                        return Err(format!("{}modification|a put / delete inside the write transaction returned a different outcome than the model", crate::report::WORKLOAD_FAILED));
                     }
                 }
                 Op::Create { .. } => {
                     let r = b.create_bucket(keys[i].as_slice()).is_ok();
                     let m = mt.create_bucket(&keys[i]).is_ok();
                     if r != m {
-                        return Err("modification disagrees with the model".into());
+                        return Err(format!("{}modification|a bucket creation / deletion inside the write transaction returned a different outcome than the model", crate::report::WORKLOAD_FAILED));
                     }
                 }
                 Op::DeleteB { .. } => {
                     let r = b.delete_bucket(keys[i].as_slice()).is_ok();
                     let m = mt.delete_bucket(&keys[i]).is_ok();
                     if r != m {
-                        return Err("modification disagrees with the model".into());
+                        return Err(format!("{}modification|a bucket creation / deletion inside the write transaction returned a different outcome than the model", crate::report::WORKLOAD_FAILED));
                     }
                 }
                 _ => {}
